@@ -65,3 +65,193 @@ Theorem C08_quantitative_fit_wf_or_clean_failure : forall mf nan_cnt d,
   \/ quantitative_fit true mf nan_cnt d = QFail QIndex.
 Proof. exact quantitative_fit_ok. Qed.
 Print Assumptions C08_quantitative_fit_wf_or_clean_failure.
+
+(* ============================================================================================ *)
+(* END-TO-END statements over the composed models (Proofs/FitEndToEndProofs.v), for ALL inputs   *)
+(* ============================================================================================ *)
+From Coq Require Import Sorted.
+From AC.Model Require Import CheckC09 Combos Measures Carve CheckC01.
+From AC.Proofs Require Import BaseLemmas CarveProofs FitEndToEndProofs.
+
+(* 1. QUANTITATIVE pipeline (ContinuousDiscretizer with the repaired quantile search, then the
+   rare-bucket pass of QuantitativeDiscretizer), whatever the aggregate, min_freq and number of
+   missing rows: either the float model of the quantile search gives up (overflow / index, never
+   lack of fuel), or fit completes with a well-formed order whose leaders are strictly increasing
+   observed values, then +inf, then the sentinel iff values are missing (alone in its group); every
+   number is below some leader; the invariant evaluated by the harness holds of it. *)
+Theorem C08_quantitative_fit_end_to_end : forall mf nan_cnt d,
+  (exists g ls,
+      quantitative_fit true mf nan_cnt d = QFit g
+      /\ WF g
+      /\ keys g = (map VNum ls ++ [VPInf] ++ nan_keys nan_cnt)%list
+      /\ Sorted Z.lt ls
+      /\ (forall x, In x ls -> In x (qvalues d))
+      /\ (In str_nan (keys g) <-> (0 < nan_cnt)%Z)
+      /\ ((0 < nan_cnt)%Z -> In (str_nan, [str_nan]) (content g))
+      /\ (forall x, exists k, In k (keys g) /\ val_le (VNum x) k = true)
+      /\ forall train, feature_ok (mkC08f true g train (0 <? nan_cnt)%Z str_nan) = true)
+  \/ quantitative_fit true mf nan_cnt d = QFail QFloat
+  \/ quantitative_fit true mf nan_cnt d = QFail QIndex.
+Proof. exact quantitative_fit_end_to_end. Qed.
+Print Assumptions C08_quantitative_fit_end_to_end.
+
+(* 2a. ORDINAL pipeline, for any ranking without duplicates (never-observed values allowed) that
+   does not contain the sentinel: the feature is dropped, or AssertionError (an observed value is
+   not ranked), or fit completes with a well-formed order holding exactly the ranked values (+ the
+   sentinel iff values are missing, alone in its group), hence every training value. *)
+Theorem C08_ordinal_fit_end_to_end : forall mf nan_cnt order d,
+  NoDup order -> ~ In str_nan order ->
+  ordinal_fit mf nan_cnt order d = Ok None
+  \/ ordinal_fit mf nan_cnt order d = AssertErr
+  \/ exists g, ordinal_fit mf nan_cnt order d = Ok (Some g)
+       /\ WF g
+       /\ Permutation (values g) (order ++ nan_keys nan_cnt)%list
+       /\ (forall v, In v (observed d) -> In v (values g))
+       /\ (In str_nan (keys g) <-> (0 < nan_cnt)%Z)
+       /\ ((0 < nan_cnt)%Z -> In (str_nan, [str_nan]) (content g))
+       /\ feature_ok (mkC08f false g (observed d) (0 <? nan_cnt)%Z str_nan) = true.
+Proof. exact ordinal_fit_end_to_end. Qed.
+Print Assumptions C08_ordinal_fit_end_to_end.
+
+(* 2b. CATEGORICAL pipeline (default-group mechanics included), for distinct observed categories,
+   a duplicate-free list of known categories, no sentinel among them: dropped, AssertionError, or a
+   well-formed order covering every observed value and holding nothing but observed / known values
+   and the two sentinels; the missing-value sentinel is a leader iff values are missing, alone in
+   its group. *)
+Theorem C08_categorical_fit_end_to_end : forall mf nan_cnt order d,
+  NoDup (observed d) -> NoDup order ->
+  ~ In str_default (observed d ++ order)%list -> ~ In str_nan (observed d ++ order)%list ->
+  categorical_fit mf nan_cnt order d = Ok None
+  \/ categorical_fit mf nan_cnt order d = AssertErr
+  \/ exists st, categorical_fit mf nan_cnt order d = Ok (Some st)
+       /\ WF (cat_gl st)
+       /\ (forall v, In v (observed d) -> In v (values (cat_gl st)))
+       /\ (forall v, In v (values (cat_gl st)) ->
+             In v (observed d ++ order)%list \/ v = str_default \/ v = str_nan)
+       /\ (In str_nan (keys (cat_gl st)) <-> (0 < nan_cnt)%Z)
+       /\ ((0 < nan_cnt)%Z -> In (str_nan, [str_nan]) (content (cat_gl st)))
+       /\ feature_ok (mkC08f false (cat_gl st) (observed d) (0 <? nan_cnt)%Z str_nan) = true.
+Proof. exact categorical_fit_end_to_end. Qed.
+Print Assumptions C08_categorical_fit_end_to_end.
+
+(* 3a. grouping a well-formed order by ANY family of duplicate-free, pairwise disjoint groups of its
+   leaders, each containing its kept leader (repeated group_list): no error, well formed, same
+   values, and the leaders are the old ones minus the discarded members, in the same order *)
+Theorem C08_grouping_family_preserves_wf : forall gs g, WF g -> groups_ok g gs ->
+  exists g', apply_groups g gs = Ok g' /\ WF g' /\ Permutation (values g') (values g)
+    /\ keys g' = keep_keys (discarded gs) (keys g).
+Proof. exact apply_groups_spec. Qed.
+Print Assumptions C08_grouping_family_preserves_wf.
+
+(* 3b. every candidate enumerated by Model/Combos.v for stage 1 (consecutive_combinations over the
+   non-missing leaders) is applied by order_apply_combination (group_list(combi, combi[0]) per group)
+   without error and leaves a well-formed order with the same values ... *)
+Theorem C08_stage1_candidates_apply_wf : forall lo maxg c, WF lo ->
+  In c (consecutive_combinations (seq 0 (List.length (non_missing (keys lo)))) maxg) ->
+  exists lo', order_apply_combination lo (leaders_of (units_of lo) c) = Ok lo'
+    /\ WF lo' /\ Permutation (values lo') (values lo).
+Proof. exact stage1_candidates_apply_wf. Qed.
+Print Assumptions C08_stage1_candidates_apply_wf.
+
+(* ... and so is every candidate of stage 2 (nan_combinations: the sentinel joins a group or stays alone) *)
+Theorem C08_stage2_candidates_apply_wf : forall lo maxg c, WF lo -> In str_nan (keys lo) ->
+  let k := List.length (non_missing (keys lo)) in
+  In c (nan_combinations (seq 0 k) k maxg) ->
+  exists lo', order_apply_combination lo (leaders_of (units_of lo) c) = Ok lo'
+    /\ WF lo' /\ Permutation (values lo') (values lo).
+Proof. exact stage2_candidates_apply_wf. Qed.
+Print Assumptions C08_stage2_candidates_apply_wf.
+
+(* 3c. the grouping kept by carve, whatever the data and configuration: duplicate-free, no empty
+   group, unit numbers below the number of non-missing modalities (the missing-value unit itself
+   only when dropna and missing values at fit) *)
+Theorem C08_carve_kept_grouping_good : forall cf d c, carve cf d = Kept c ->
+  let m := List.length (d_train d) in
+  (two_stage cf d = false -> good_grouping m c)
+  /\ (two_stage cf d = true -> good_grouping (S m) c).
+Proof. exact carve_kept_good. Qed.
+Print Assumptions C08_carve_kept_grouping_good.
+
+(* 3d. hence carve's Kept result, applied to the label order and written back to a well-formed
+   values order with as many non-missing leaders as the crosstab has rows (the sentinel being a
+   leader when the crosstab has a missing-value row): no error, well formed, same values, leaders
+   = a sub-list of the old leaders, a quantitative scale stays one *)
+Theorem C08_carve_kept_order_wf : forall quant g cf fd c, WF g ->
+  List.length (d_train fd) = List.length (non_missing (keys g)) ->
+  (d_train_nan fd <> None -> In str_nan (keys g)) ->
+  carve cf fd = Kept c ->
+  exists g', carver_fit_order quant g c = Ok g' /\ WF g' /\ Permutation (values g') (values g)
+    /\ (exists D, keys g' = keep_keys D (keys g))
+    /\ (quant = true -> quant_keys (keys g) -> quant_keys (keys g')).
+Proof. exact carve_kept_order_wf. Qed.
+Print Assumptions C08_carve_kept_order_wf.
+
+(* 4. one feature through Discretizer and (optionally) a carver: fit completes with a coherent
+   order, or drops the feature, or raises AssertionError (qualitative only), or the float model of
+   the quantile search gives up (quantitative only); never any other failure.
+   [fit_pipeline], [carver_fit_order] are compositions DEFINED in Proofs/FitEndToEndProofs.v from
+   Model/ functions (no Model/ definition of the carver's write-back exists): they are not exercised
+   by the correspondence harness. *)
+Theorem C08_fit_pipeline_wf_end_to_end : forall i carver,
+  input_ok i -> carver_aligned i carver ->
+  match fit_pipeline i carver with
+  | PFitted g => fitted_ok i g
+  | PDropped => is_quant i = false \/ carver <> None
+  | PAssert => is_quant i = false
+  | PNumeric e => is_quant i = true /\ (e = QFloat \/ e = QIndex)
+  | PInternal => False
+  end.
+Proof. exact fit_pipeline_wf_end_to_end. Qed.
+Print Assumptions C08_fit_pipeline_wf_end_to_end.
+
+(* the hypotheses are satisfiable and the pipeline does something: a quantitative feature with
+   missing values whose sentinel is grouped by the carver (values_orders as the real code fits it),
+   and an ordinal feature with a never-observed value *)
+Example C08_end_to_end_nonvacuous :
+  let cf := mkCfg 3 (f_of_dyadic 1 (-4)) true Cramerv in
+  let fd := mkData [[(0,5);(1,3)]; [(0,2);(1,6)]; [(0,4);(1,4)]]%Z (Some [(0,3);(1,3)]%Z) None None in
+  let iq := BQuant (1, -2)%Z 6%Z [(10, 8, 3); (20, 8, 6); (30, 8, 4)]%Z in
+  let io := BOrd (1, -3)%Z 6%Z [VStr "a"; VStr "b"; VStr "c"; VStr "z"]
+                 [(VStr "a", 8, 3); (VStr "c", 8, 4); (VStr "b", 8, 6)]%Z in
+  input_ok iq /\ carver_aligned iq (Some (cf, fd))
+  /\ fit_pipeline iq (Some (cf, fd))
+     = PFitted (mkGL [VNum 10; VNum 20; VPInf]
+                     [(VNum 10, [VNum 10]); (VNum 20, [VNum 20]); (VPInf, [str_nan; VNum 30; VPInf])])
+  /\ input_ok io /\ carver_aligned io (Some (cf, fd))
+  /\ fit_pipeline io (Some (cf, fd))
+     = PFitted (mkGL [VStr "a"; VStr "b"; VStr "c"]
+                     [(VStr "a", [VStr "a"]); (VStr "b", [VStr "b"]);
+                      (VStr "c", [str_nan; VStr "z"; VStr "c"])]).
+Proof.
+  cbv zeta. split; [exact I|]. split.
+  { intros g Hg. vm_compute in Hg. injection Hg as <-. split; [reflexivity|]. intros _. reflexivity. }
+  split; [vm_compute; reflexivity|]. split.
+  { split; [apply nodupb_NoDup; vm_compute; reflexivity|]. apply mem_false. vm_compute. reflexivity. }
+  split.
+  { intros g Hg. vm_compute in Hg. injection Hg as <-. split; [reflexivity|]. intros _. reflexivity. }
+  vm_compute. reflexivity.
+Qed.
+
+(* 3e. the two-stage path exactly as _get_best_combination runs it (stage-1 winner c1 applied to the
+   label order, stage-2 winner c2 applied to the RESULT, then one write-back): carve's two-stage
+   Kept result is expand c1 m c2 for such a pair, and that path ends without error in a well-formed
+   order with the same values *)
+Theorem C08_carve_two_stage_order_wf : forall quant g cf fd c, WF g ->
+  List.length (d_train fd) = List.length (non_missing (keys g)) -> In str_nan (keys g) ->
+  two_stage cf fd = true -> carve cf fd = Kept c ->
+  exists c1 c2, c = expand c1 (List.length (d_train fd)) c2
+    /\ stage cf (d_train fd) (d_dev fd) (cands1 cf fd) = Some c1
+    /\ In c2 (cands2 cf c1)
+    /\ exists g', carver_fit_order2 quant g c1 c2 = Ok g' /\ WF g' /\ Permutation (values g') (values g)
+         /\ (quant = true -> quant_keys (keys g) -> quant_keys (keys g')).
+Proof. exact carve_two_stage_order_wf. Qed.
+Print Assumptions C08_carve_two_stage_order_wf.
+
+(* the sentinel hypothesis of 2b is needed OF THE MODEL: a column holding the literal default
+   sentinel gives the model's order a duplicated leader.  (The real code merges such rows into the
+   default group silently and stays well formed: this is a limit of the model's domain, not a defect.) *)
+Example C08_categorical_sentinel_in_data_model_witness :
+  let d := [(str_default, 10, 3); (VStr "a", 10, 5); (VStr "b", 1, 1)]%Z in
+  exists st, categorical_fit (1, -3)%Z 0%Z [str_default; VStr "a"; VStr "b"] d = Ok (Some st)
+             /\ wf_b (cat_gl st) = false.
+Proof. cbv zeta. eexists. split; vm_compute; reflexivity. Qed.
